@@ -369,6 +369,7 @@ func scanInventoryWithOverlay(repo string, overlay map[string][]byte) (map[strin
 }
 
 type flattener struct {
+	earlier  map[*ast.CallExpr][]ast.Node // effectful sibling expressions evaluated before a nested helper call
 	pkg      *packages.Package
 	pkRel    string
 	newFuncs map[string]bool
@@ -790,16 +791,45 @@ func (fl *flattener) nestedHelperCall(lhs, rhs []ast.Expr) *ast.CallExpr {
 			return nil
 		}
 	}
+	var before []ast.Node
 	for _, e := range effects {
 		if e == ast.Node(cand) {
 			continue
 		}
-		// an enclosing call is evaluated after its arguments; anything that ends before the candidate starts runs first
+		// an enclosing call is evaluated after its arguments; anything that ends before the candidate starts runs first:
+		// it is hoisted into a temporary, in order, so that the order of evaluation stays what it was
 		if e.End() <= cand.Pos() {
-			return nil
+			for _, g := range guarded {
+				if g.Pos() <= e.Pos() && e.End() <= g.End() {
+					return nil // conditionally evaluated: cannot be hoisted
+				}
+			}
+			if tv, ok := fl.pkg.TypesInfo.Types[e.(ast.Expr)]; ok {
+				if _, isTuple := tv.Type.(*types.Tuple); isTuple {
+					return nil
+				}
+			}
+			before = append(before, e)
 		}
-		// a call whose function operand contains the candidate (helper(x)(y)) is fine; a method call on a receiver
-		// evaluated before is covered by the End() test
+	}
+	// keep only the outermost ones
+	var outer []ast.Node
+	for _, e := range before {
+		inner := false
+		for _, o := range before {
+			if o != e && o.Pos() <= e.Pos() && e.End() <= o.End() {
+				inner = true
+			}
+		}
+		if !inner {
+			outer = append(outer, e)
+		}
+	}
+	if len(outer) > 0 {
+		if fl.earlier == nil {
+			fl.earlier = map[*ast.CallExpr][]ast.Node{}
+		}
+		fl.earlier[cand] = outer
 	}
 	return cand
 }
@@ -1066,6 +1096,7 @@ func (fl *flattener) expand(stmt ast.Stmt, call *ast.CallExpr, form string, fd *
 	}
 	b.WriteString("}\n")
 	res := strings.Join(rtemps, ", ")
+	prelude := ""
 	repl := func(node ast.Node) string {
 		// print node with the call replaced by the temporaries
 		s := nodeStr(fset, node)
@@ -1073,7 +1104,18 @@ func (fl *flattener) expand(stmt ast.Stmt, call *ast.CallExpr, form string, fd *
 		if strings.Count(s, cs) != 1 {
 			return ""
 		}
-		return strings.Replace(s, cs, res, 1)
+		s = strings.Replace(s, cs, res, 1)
+		// sibling expressions with effects that are evaluated before the call move in front of it, in order
+		for i, e := range fl.earlier[call] {
+			es := nodeStr(fset, e)
+			if strings.Count(s, es) != 1 {
+				return ""
+			}
+			tmp := fmt.Sprintf("__e%d_%d", n, i)
+			s = strings.Replace(s, es, tmp, 1)
+			prelude += tmp + " := " + es + "\n"
+		}
+		return s
 	}
 	switch form {
 	case "expr":
@@ -1084,6 +1126,9 @@ func (fl *flattener) expand(stmt ast.Stmt, call *ast.CallExpr, form string, fd *
 			return "", false
 		}
 		b.WriteString(r + "\n")
+		if prelude != "" {
+			return prelude + b.String(), true // the temporaries have unique names: no block needed (and := must stay in scope)
+		}
 	case "if-init-assign", "if-init-expr":
 		is := stmt.(*ast.IfStmt)
 		initText := ""
